@@ -1,3 +1,4 @@
 SPECIFICATION TSpec
 CONSTANT CHECKS = {"canon"}
+CONSTANT Deviations = {}
 POSTCONDITION TraceAccepted
